@@ -528,6 +528,28 @@ func runC09(c *rt.Ctx) {
 		})
 		c.Require("rule-alternating-history", 1700)
 	}
+	// every limit from 0 to 24 (a limit of 9 sits between the two layouts, 11..15 between the year widths) on a
+	// reduced grid: all four separator layouts, months and days at and beyond their ends
+	for limit := 0; limit <= 24; limit++ {
+		date.MaxInputLength = limit
+		c.Parallel("every-limit", 0, func(w *rt.W) {
+			years := []string{"2020", "0000", "9999", "12345", "999999999", "2021"}
+			for yi := w.Shard; yi < len(years); yi += w.NShards {
+				for _, mm := range []string{"00", "01", "02", "12", "13"} {
+					for _, dd := range []string{"00", "01", "28", "29", "30", "31", "32"} {
+						for _, t := range []string{years[yi] + "-" + mm + "-" + dd, years[yi] + mm + dd, years[yi] + "-" + mm + dd, years[yi] + mm + "-" + dd} {
+							c09Case(w, t, 0, true)
+							c09Case(w, t, date.RuleDisableBasic, false)
+							c09Case(w, t+"0", 0, false)
+						}
+					}
+				}
+			}
+			w.ClassN("limit-value-swept", 1)
+		})
+	}
+	date.MaxInputLength = 10
+	c.Require("limit-value-swept", 25)
 	// the text as other layers spell it (quoted, bracketed, escaped, padded, doubled, other scripts): not the text
 	for _, limit := range []int{10, 0, 60} {
 		date.MaxInputLength = limit
